@@ -35,7 +35,38 @@ fn rt<T: Serialize + DeserializeOwned + Debug>(ctx: &mut Ctx, ty: &str, x: &T, m
     ctx.emit.line("spec", &format!("spec:{ty}:decodes-to-same-value"), format!("spec.eq {} true", same), "true".into(), case.clone());
     ctx.emit.line("spec", &format!("spec:{ty}:fixed-point"), format!("spec.eq {} {}", hex_or_dash(&b1), hex_or_dash(&b2)), "true".into(), case.clone());
     ctx.emit.line("corr", &format!("{ty}:cbor-layer"), format!("cbor.rt {}", hex_or_dash(&b1)), hex_or_dash(&b1), case.clone());
-    if let Some(op) = modelled { ctx.emit.line("corr", &format!("{ty}:typed-model"), format!("wire.{op} {}", hex_or_dash(&b1)), hex_or_dash(&b1), case); }
+    if let Some(op) = modelled { ctx.emit.line("corr", &format!("{ty}:typed-model"), format!("wire.{op} {}", hex_or_dash(&b1)), hex_or_dash(&b1), case.clone()); }
+    // the generic schema model (Model/Schema.lean + WireSchemas.lean): typed decode-and-re-encode of the SAME bytes and of
+    // foreign presentations of them (reversed map order everywhere outside embedded items, an unknown entry, explicit nulls for
+    // absent optional fields) must equal what the library re-encodes; what the library emits must satisfy the schema's validator
+    const SCHEMAS: [&str; 17] = ["SessionData", "SessionEstablishment", "CoseKey", "ItemsRequest", "DocRequest", "DeviceRequest", "IssuerSignedItem", "IssuerSigned",
+        "DeviceSigned", "Document", "DeviceResponse", "ValidityInfo", "KeyAuthorizations", "DeviceKeyInfo", "Mso", "DeviceEngagement", "Handover"];
+    if !SCHEMAS.contains(&ty) || b2.is_empty() { return; }
+    let real_of = |bytes: &[u8]| -> String { match crate::guarded({ let b = bytes.to_vec(); move || cbor::from_slice::<T>(&b).ok().and_then(|y| cbor::to_vec(&y).ok()) }) {
+        Ok(Some(b)) => format!("ok {}", hex::encode(b)), Ok(None) => "err".into(), Err(_) => "panic".into() } };
+    ctx.emit.line("corr", &format!("{ty}:schema-norm"), format!("schema.norm {ty} {}", hex::encode(&b1)), real_of(&b1), case.clone());
+    ctx.emit.line("spec", &format!("spec:{ty}:schema-conformance"), format!("spec.schema.conf {ty} {}", hex::encode(&b2)), "true".into(), case.clone());
+    if let Ok(v) = cbor::from_slice::<ciborium::Value>(&b1) {
+        fn reversed(v: &ciborium::Value) -> ciborium::Value { use ciborium::Value as V; match v {
+            V::Map(m) => V::Map(m.iter().rev().map(|(k, x)| (k.clone(), reversed(x))).collect()), V::Array(a) => V::Array(a.iter().map(reversed).collect()),
+            V::Tag(24, _) => v.clone(), V::Tag(t, x) => V::Tag(*t, Box::new(reversed(x))), other => other.clone() } }
+        let optional: &[&str] = match ty { "SessionData" => &["data", "status"], "DeviceResponse" => &["documents", "documentErrors"], "Document" => &["errors"], "DocRequest" => &["readerAuth"],
+            "ItemsRequest" => &["requestInfo"], "IssuerSigned" => &["nameSpaces"], "DeviceKeyInfo" => &["keyAuthorizations", "keyInfo"], "KeyAuthorizations" => &["nameSpaces", "dataElements"], _ => &[] };
+        let mut variants: Vec<(&str, ciborium::Value)> = vec![("reversed-maps", reversed(&v))];
+        if let ciborium::Value::Map(m) = &v {
+            let int_keys = m.first().map(|(k, _)| k.is_integer()).unwrap_or(false);
+            let mut m2 = m.clone(); m2.insert(0, (if int_keys { ciborium::Value::Integer(99.into()) } else { ciborium::Value::Text("zzUnknown".into()) }, ciborium::Value::Integer(1.into())));
+            variants.push(("unknown-entry", ciborium::Value::Map(m2)));
+            let mut m3 = m.clone(); let mut added = false;
+            for o in optional { if !m.iter().any(|(k, _)| k.as_text() == Some(o)) { m3.push((ciborium::Value::Text(o.to_string()), ciborium::Value::Null)); added = true; } }
+            if added { variants.push(("null-options", ciborium::Value::Map(m3))); }
+        }
+        for (what, fv) in variants {
+            let fb = crate::gen::to_bytes(&fv);
+            if fb == b1 { continue; }
+            ctx.emit.line("corr", &format!("{ty}:schema-norm:{what}"), format!("schema.norm {ty} {}", hex::encode(&fb)), real_of(&fb), serde_json::json!({"type": ty, "variant": what, "msg_hex": hex::encode(&fb)}));
+        }
+    }
 }
 
 fn gen_cose_key(rng: &mut impl Rng) -> CoseKey {
@@ -127,6 +158,7 @@ pub fn run(ctx: &mut Ctx) {
         rt(ctx, "ItemsRequest", &ir, None);
         let mut drs = NonEmptyVec::new(DocRequest { items_request: Tag24::new(ir).unwrap(), reader_auth: None });
         for _ in 0..rng.gen_range(0..3) { drs.push(DocRequest { items_request: Tag24::new(gen_items_request(&mut rng)).unwrap(), reader_auth: None }); }
+        rt(ctx, "DocRequest", &drs[0].clone(), None);
         rt(ctx, "DeviceRequest", &DeviceRequest { version: "1.0".into(), doc_requests: drs }, None);
         // validity: offsets and sub-second parts; emitted text must denote floor(instant) in UTC
         let base = time::OffsetDateTime::from_unix_timestamp(rng.gen_range(-2_000_000_000i64..4_000_000_000)).unwrap();
@@ -147,11 +179,13 @@ pub fn run(ctx: &mut Ctx) {
             let b1 = cbor::to_vec(&vi).unwrap(); let y: ValidityInfo = cbor::from_slice(&b1).unwrap(); let b2 = cbor::to_vec(&y).unwrap();
             ctx.emit.line("spec", "spec:ValidityInfo:fixed-point", format!("spec.eq {} {}", hex::encode(&b1), hex::encode(&b2)), "true".into(), serde_json::json!({"msg_hex": hex::encode(&b1)}));
             ctx.emit.corr("ValidityInfo:cbor-layer", format!("cbor.rt {}", hex::encode(&b1)), hex::encode(&b1));
+            rt(ctx, "ValidityInfo", &y, None);
         }
         // key info
         let auth = match k % 4 { 0 => None, 1 => Some(KeyAuthorizations { namespaces: Some(NonEmptyVec::new(gen_text(&mut rng, 9))), data_elements: None }),
             2 => Some(KeyAuthorizations { namespaces: None, data_elements: Some(NonEmptyMap::new(gen_text(&mut rng, 9), NonEmptyVec::new(gen_text(&mut rng, 5)))) }), _ => Some(KeyAuthorizations::default()) };
         let key_info = if k % 3 == 0 { Some((0..rng.gen_range(0..3)).map(|i| (i as i128 - 1, gen_value(&mut rng, 1))).collect()) } else { None };
+        if let Some(a) = &auth { rt(ctx, "KeyAuthorizations", a, None); }
         let dki = DeviceKeyInfo { device_key: gen_cose_key(&mut rng), key_authorizations: auth, key_info };
         rt(ctx, "DeviceKeyInfo", &dki, None);
         // engagement options
@@ -186,6 +220,7 @@ pub fn run(ctx: &mut Ctx) {
             rt(ctx, "IssuerSigned", &is, None);
             let item: &Tag24<IssuerSignedItem> = &mdoc.namespaces.iter().next().unwrap().1[0];
             rt(ctx, "IssuerSignedItemBytes", item, None);
+            rt(ctx, "IssuerSignedItem", &item.clone().into_inner(), None);
             rt(ctx, "Mdoc", &mdoc, None);
             let doc = isomdl::presentation::device::Document::from(mdoc);
             rt(ctx, "device::Document", &doc, None);
@@ -197,6 +232,14 @@ pub fn run(ctx: &mut Ctx) {
         let resp = DeviceResponse { version: "1.0".into(), documents: None, document_errors: derrs,
             status: [RespStatus::OK, RespStatus::GeneralError, RespStatus::CborDecodingError, RespStatus::CborValidationError][k % 4].clone() };
         rt(ctx, "DeviceResponse", &resp, None);
+    }
+    // --- real responses with documents (issuer-signed items, device signature, element errors)
+    for i in 0..(if ctx.thorough { 12 } else { 3 }) {
+        let live = crate::auth::Live::new(40 + i, &pki, &mut rng, pki.iaca_registry(), &["family_name", "age_over_18", "not_held"]);
+        if let Ok(resp) = cbor::from_value::<DeviceResponse>(live.resp.clone()) {
+            rt(ctx, "DeviceResponse", &resp, None);
+            for d in resp.documents.iter().flat_map(|d| d.iter()) { rt(ctx, "Document", d, None); rt(ctx, "DeviceSigned", &d.device_signed, None); rt(ctx, "IssuerSigned", &d.issuer_signed, None); }
+        }
     }
     // --- values outside the documented domain must be rejected, not altered
     let rejects: Vec<(&str, Vec<u8>)> = vec![
